@@ -99,6 +99,19 @@ func ddSig(want int64) string {
 	return "datediff/not-day-difference"
 }
 
+// modelledFormat: only specifiers of the Coq renderer (Codec/C31Format.v) and plain ASCII literals.
+func modelledFormat(fm string) bool {
+	for i := 0; i < len(fm); i++ {
+		if fm[i] == '%' {
+			if i+1 >= len(fm) || strings.IndexByte("YymcdeHkhIlisSfpTr%", fm[i+1]) < 0 {
+				return false
+			}
+			i++
+		}
+	}
+	return true
+}
+
 // greedyAdjacent: a specifier parsed with takeNumber (all following digits) is directly followed by a
 // specifier or literal that renders with a leading digit.
 func greedyAdjacent(fm string) bool {
@@ -225,9 +238,9 @@ func gen(r *lib.RNG) caseT {
 	}
 	if strings.Contains(fm, "%y") {
 		y = int64(r.Range(1970, 2069))
-		if d > dim(y, m) {
-			d = dim(y, m)
-		}
+	}
+	if d > dim(y, m) { // the year may have changed: stay on an existing date
+		d = dim(y, m)
 	}
 	return caseT{Fam: "format", Fmt: fm, In: []int64{y, m, d, int64(r.Intn(86400)), int64(r.Intn(1000000)) * int64(r.Intn(2))}}
 }
@@ -399,6 +412,17 @@ func run(c *lib.Ctx, e *eng.E, cs caseT) {
 		if x.err != "" || x.null {
 			fail("date_format/failed", fmt.Sprintf("%s failed: %s", q, x.err))
 			break
+		}
+		if modelledFormat(fm) { // record the rendering for the Coq renderer model
+			args := []int64{y, m, d, tod / 3600, tod / 60 % 60, tod % 60, us}
+			for _, ch := range []byte(fm) {
+				args = append(args, int64(ch))
+			}
+			var outb []int64
+			for _, ch := range []byte(x.s) {
+				outb = append(outb, int64(ch))
+			}
+			r.cs.Calls = append(r.cs.Calls, Call{Fn: 9, SQL: q, Args: args, Out: outb})
 		}
 		if strings.Contains(fm, "%y") {
 			qy := fmt.Sprintf("SELECT DATE_FORMAT('%s', '%%y')", lit)
